@@ -152,6 +152,14 @@ def create_single_mode_squeezing_matrix(
     matrix = connector.accumulator(dtype=complex_dtype, size=cutoff)
 
     matrix = connector.write_to_accumulator(matrix, 0, first_row)
+
+    if cutoff == 1:
+        # NOTE: There is no second row to write, and accumulators of fixed size (e.g.,
+        # `tf.TensorArray`) and `tf.range(2, 1)` would raise.
+        return np.sqrt(sechr) * connector.transpose(
+            connector.stack_accumulator(matrix)
+        )
+
     matrix = connector.write_to_accumulator(matrix, 1, second_row)
 
     previous_previous = first_row
